@@ -82,8 +82,8 @@ func (t *MemTransport) DialStream(ctx context.Context, peer *protocol.Node, kind
 }
 
 func (t *MemTransport) AcceptStream() <-chan *transport.StreamDelegate { return t.accept }
-func (t *MemTransport) ListConnected() []transport.ConnectedPeer        { return nil }
-func (t *MemTransport) SupportDatagram() bool                           { return true }
+func (t *MemTransport) ListConnected() []transport.ConnectedPeer       { return nil }
+func (t *MemTransport) SupportDatagram() bool                          { return true }
 func (t *MemTransport) ReceiveDatagram() <-chan *transport.DatagramDelegate {
 	return t.dgram
 }
